@@ -334,7 +334,7 @@ Section Step.
 
   Theorem tl_step_law l o : law_step vld l o (tl_step vld l o) = [].
   Proof.
-    destruct o as [i v|sl vs|i|sl|v|vs|vs|n|i v|oi|v| |m r| ]; unfold tl_step.
+    destruct o as [i v|sl vs|i|sl|v|vs|vs|n|p q|i v|oi|v| |m r| ]; unfold tl_step.
     - (* SetInt *)
       rewrite removed_items_int. unfold setitem_int.
       destruct (in_range (zlen l) i) eqn:R.
@@ -440,6 +440,8 @@ Section Step.
         * eapply law_event; [cbn [builtin]; unfold imul; rewrite N, M; reflexivity|apply tail_event].
         * apply nonempty_length in NE. rewrite NE, app_nil_r.
           eapply law_silent. cbn [builtin]. unfold imul. rewrite N, M. cbn [rep]. rewrite NE, app_nil_r. reflexivity.
+    - (* ImulQ *)
+      eapply law_raise; [reflexivity|left; reflexivity].
     - (* Insert *)
       destruct (vld v) as [y|] eqn:V.
       + eapply law_event; [cbn [builtin]; rewrite V; reflexivity|].
@@ -498,10 +500,20 @@ Section Tlo.
     destruct (Nat.eqb_spec (length ws) (length (npos (zlen l) sl))); [contradiction|reflexivity].
   Qed.
 
-  Theorem tlo_step_law mn mx l o :
-    law_step vld l o (tlo_step vld mn mx l o) = [] \/ tlo_step vld mn mx l o = raise TraitError l.
+  (* a non-integer multiplier is refused by the TraitListObject with TypeError or TraitError; every other
+     operation goes through the announced-length guard *)
+  Lemma tlo_step_split mn mx l o :
+    (exists p q e, o = ImulQ p q /\ tlo_step vld mn mx l o = raise e l /\ (e = TypeError \/ e = TraitError)) \/
+    tlo_step vld mn mx l o = tlo_step0 vld mn mx l o.
   Proof.
-    unfold tlo_step.
+    destruct o; try (right; reflexivity). left. exists p, q. cbn [tlo_step].
+    destruct (qlen_ok mn mx (zlen l) p q); [exists TypeError|exists TraitError]; auto.
+  Qed.
+
+  Theorem tlo_step0_law mn mx l o :
+    law_step vld l o (tlo_step0 vld mn mx l o) = [] \/ tlo_step0 vld mn mx l o = raise TraitError l.
+  Proof.
+    unfold tlo_step0.
     destruct (announced l o) as [[n|]|e] eqn:AN.
     - destruct (len_ok mn mx n); [left; apply tl_step_law|right; reflexivity].
     - left; apply tl_step_law.
@@ -530,6 +542,15 @@ Section Tlo.
         inversion AN; subst e.
         assert (delitem_slice l sl = Raise ValueError) as HD by (unfold delitem_slice; rewrite Hs; reflexivity).
         eapply law_raise; [cbn [builtin]; rewrite HD; reflexivity|left; reflexivity].
+  Qed.
+
+  Theorem tlo_step_law mn mx l o :
+    law_step vld l o (tlo_step vld mn mx l o) = [] \/ tlo_step vld mn mx l o = raise TraitError l.
+  Proof.
+    destruct (tlo_step_split mn mx l o) as [(p & q & e & -> & E & [->| ->])|E]; rewrite E.
+    - left. eapply law_raise; [reflexivity|left; reflexivity].
+    - right. reflexivity.
+    - apply tlo_step0_law.
   Qed.
 End Tlo.
 
